@@ -19,6 +19,11 @@ CLAIMED = {
         text="Unbounded theorems: the viewBox->font placement is user o flip o uniform-scale-and-centre (over any field); the advance rule with half-even rounding; the reversed-pre-order/depth-stack loop of _painted_layers returns exactly the source's items as trees in source order for every picosvg-normal source (mutual induction), no assertion reachable; linear gradients are carried by any invertible affine, the default p2 is the SVG projection, uniform transforms map gradient circles to circles. The models are tied to color_glyph.py by evaluating them in Coq on random Fractions / generated picosvg documents. The composition (incl. reuse rewrite, palette, quantisation) is checked end to end: generated source sets x configurations x {glyf,cff,cff2}_colr_1 are compiled by the real code, reloaded, and every glyph's COLR paint graph is compared layer by layer (boundary distance, group alpha structure, colours, gradient geometry) with the placed source.",
         ref="DESIGN.md 8 C01",
     ),
+    "C02": dict(
+        technique="machine-checked proof in Coq (placement law incl. the general conjugation law and a refutation of the unrestricted statement; <use> split; glyph reshuffle permutation/contiguity) + end-to-end rendering of the SVG table by an independent OT-SVG interpreter",
+        text="Unbounded theorems over any field: the OT-SVG placement equals the mirrored font placement exactly when the user transform commutes with the mirror, the law that holds for every user transform conjugates it by the mirror, and the unrestricted statement is refuted by a machine-checked witness (known finding F6); the x/y + residual matrix of a <use> denotes exactly the reuse transform; the reshuffle is a permutation that gives every sharing group consecutive glyph ids in group order and keeps .notdef first. Document assembly is judged end to end: generated source sets x configurations x {picosvg, picosvgz, untouchedsvg, untouchedsvgz} are built by the real code, the document covering each glyph id is rendered by an independent interpreter (g/path/use with x,y,transform, fill inheritance, userSpaceOnUse gradients) and compared layer by layer with the placed source; ids unique, hrefs resolve in-document, exactly one glyph<id>. Found and fixed: paint moved onto an in-place <use> target (F1); known: F6, 3-decimal rounding of <use> transforms (F12).",
+        ref="DESIGN.md 8 C02",
+    ),
     "C03": dict(
         technique="machine-checked proof in Coq (breadth-first walk = COLR placements under the one-transform invariant, by nested induction over paint trees; refutation for nested transforms) + correspondence by vm_compute + end-to-end comparison of COLRv0/glyf builds",
         text="Unbounded theorems over any field: Paint.breadth_first and a depth-first enumeration visit the same contexts (queue invariant); under the invariant the compiler establishes (at most one transform paint above a PaintGlyph, glyph-free fills) the (glyph, transform, fill) triples consumed by _colr0_layers/_glyf_ufo/_bounds are exactly the placements of the COLR rendering semantics; with nested transforms the walk composes in the wrong order (machine-checked witness; latent, unreachable from nanoemoji's trees). The walk's model is tied to the code by evaluating it in Coq on generated trees. End to end: generated sources x configurations x {glyf_colr_0, cff_colr_0, cff2_colr_0, glyf} are built by the real code: COLRv0 layers compared in z-order with CPAL colour+alpha (solid sources), outlines matched one-to-one with placed source shapes (any source), base glyph bounds cover layers, glyf contours match sources one-to-one.",
